@@ -5,6 +5,7 @@ pub mod c01;
 pub mod c02;
 pub mod c03;
 pub mod c05;
+pub mod c06;
 pub mod c07;
 pub mod c08;
 pub mod c09;
@@ -16,6 +17,7 @@ pub fn get(id: &str) -> Option<PropertyDef> {
         "C02" => Some(c02::def()),
         "C03" => Some(c03::def()),
         "C05" => Some(c05::def()),
+        "C06" => Some(c06::def()),
         "C07" => Some(c07::def()),
         "C08" => Some(c08::def()),
         "C09" => Some(c09::def()),
